@@ -5,7 +5,7 @@ import (
 	"fmt"
 	"os"
 	"path/filepath"
-		"strconv"
+	"strconv"
 	"strings"
 	"time"
 
@@ -51,6 +51,8 @@ type schedBatch struct {
 	Distinct       []uint64          `json:"distinct"`
 	Samples        []json.RawMessage `json:"samples"`
 	StuckAbandoned int               `json:"stuck_abandoned"`
+	ShadowEvents   int64             `json:"shadow_events"`
+	ExactStates    int64             `json:"exact_state_checks"`
 }
 
 type famCount struct {
@@ -82,6 +84,8 @@ type schedAgg struct {
 	Samples        []json.RawMessage
 	Crashes        int
 	RaceReports    int
+	ShadowEvents   int64
+	ExactStates    int64
 }
 
 // runSched runs the plan on the Engine S harness built from the working tree
@@ -169,6 +173,8 @@ func runSched(c *ctx, plan []famCount, race bool) *schedAgg {
 		agg.Late += br.LateEnqueues
 		agg.Overcommit += br.Overcommit
 		agg.Perturb += br.PerturbHits
+		agg.ShadowEvents += br.ShadowEvents
+		agg.ExactStates += br.ExactStates
 		agg.MustNotStart += br.MustNotStart
 		agg.Failures += br.Failures
 		agg.Goexits += br.Goexits
@@ -253,29 +259,31 @@ func firstLines(s string, n int) string {
 
 func (a *schedAgg) coverage(rule string) map[string]interface{} {
 	return map[string]interface{}{
-		"evaluations":                     a.Evaluations,
-		"distinct_nontrivial":             min(len(a.Distinct), a.NonTrivial),
-		"rule":                            rule,
-		"samples":                         a.Samples,
-		"scenarios_by_family":             a.ByFamily,
-		"jobs_submitted":                  a.Jobs,
-		"job_bodies_started":              a.Started,
-		"state_reports_checked":           a.States,
-		"late_enqueues_seen_by_loop":      a.Late,
-		"perturbations_injected":          a.Perturb,
-		"must_not_start_jobs_checked":     a.MustNotStart,
-		"failed_jobs":                     a.Failures,
-		"goexit_jobs":                     a.Goexits,
-		"transitively_blocked_jobs":       a.Blocked,
-		"goroutine_censuses":              a.Censuses,
-		"max_scheduler_goroutines_over_N": a.MaxCensusOverN,
-		"nil_returns":                     a.NilReturns,
-		"cancelled_runs":                  a.Cancelled,
-		"max_inflight_by_limit":           a.HWM,
-		"distinct_loop_arm_interleavings": len(a.Sigs),
-		"distinct_abstract_loop_states":   len(a.Abs),
-		"scenarios_with_ongoing_above_N":  a.Overcommit,
-		"child_crashes":                   a.Crashes,
+		"evaluations":                             a.Evaluations,
+		"distinct_nontrivial":                     min(len(a.Distinct), a.NonTrivial),
+		"rule":                                    rule,
+		"samples":                                 a.Samples,
+		"scenarios_by_family":                     a.ByFamily,
+		"jobs_submitted":                          a.Jobs,
+		"job_bodies_started":                      a.Started,
+		"state_reports_checked":                   a.States,
+		"late_enqueues_seen_by_loop":              a.Late,
+		"perturbations_injected":                  a.Perturb,
+		"must_not_start_jobs_checked":             a.MustNotStart,
+		"failed_jobs":                             a.Failures,
+		"goexit_jobs":                             a.Goexits,
+		"transitively_blocked_jobs":               a.Blocked,
+		"goroutine_censuses":                      a.Censuses,
+		"max_scheduler_goroutines_over_N":         a.MaxCensusOverN,
+		"nil_returns":                             a.NilReturns,
+		"cancelled_runs":                          a.Cancelled,
+		"max_inflight_by_limit":                   a.HWM,
+		"distinct_loop_arm_interleavings":         len(a.Sigs),
+		"distinct_abstract_loop_states":           len(a.Abs),
+		"scenarios_with_ongoing_above_N":          a.Overcommit,
+		"child_crashes":                           a.Crashes,
+		"loop_events_checked_by_shadow_model":     a.ShadowEvents,
+		"state_reports_compared_exactly_to_model": a.ExactStates,
 	}
 }
 
